@@ -31,6 +31,17 @@ def genexp(f, it, cond=None):
     return (f(x) for x in it if cond(x))
 
 
+def contains(a, b):
+    """`a in b`: real operands use the real operator; symbolic strings / containers answer symbolically"""
+    f = getattr(b, "__pyvc_contains__", None)
+    if f is not None:
+        return f(a)
+    g = getattr(a, "__pyvc_in__", None)
+    if g is not None:
+        return g(b)
+    return a in b
+
+
 class SymSeq:
     __hash__ = None
 
